@@ -68,18 +68,30 @@ static void set08Q(const int *d, vcase *c)     /* size query */
 { set_base(c, d[0], d[1], d[2], 1, d[3], d[4], d[5]); c->lworkmode = 2; c->lwork = -1; c->equil = d[6]; c->fact = d[7]; c->fest = FEST[d[8]]; c->tune[6] = c->fest; if (d[6]) c->vals = 4; }
 static void set08K(const int *d, vcase *c)     /* k-th growth request fails under library allocation */
 { set_base(c, d[0], d[1], d[2], d[3], d[4], d[5], d[6]); c->lworkmode = 3; c->k = d[7] + 1; c->fest = 1; c->tune[6] = 1; }
+static void set08W12(const int *d, vcase *c)   /* 12x12, relaxed supernodes of up to 10 columns: one supernode block can exceed a (reduced) growth step of the workspace allocator */
+{
+    set_base(c, 0, 0, d[1], 0, 0, d[3], 0); c->n = c->m = 12;
+    if (d[0] < 4) { c->gen = 1; c->pat = (uint64_t)(int[]){ 9, 10, 4, 7 }[d[0]]; } else { c->gen = 2; c->pat = (uint64_t)(600 + d[0]); }
+    set_tune(c, (int[]){ 0, 9, 12 }[d[2]]); c->colperm = (d[0] & 1) ? 3 : 0; c->lworkmode = 1; c->lwork = 4 * (long)(d[4] + 1); c->align = d[5] * 4; c->fest = 1; c->tune[6] = 1; c->aux2 = 0xA5; c->aux = d[6] * 2;
+}
+static void set08K8(const int *d, vcase *c)    /* k-th growth request fails, 8x8 natural order: U outgrows nnz(A), so the UCOL and USUB requests are among the failing ones */
+{ set_base(c, d[0], 0, d[1], 0, 0, d[3], 0); c->n = c->m = 8; c->pat = dev1_pattern(8, base_pattern(8, d[0]), d[5]); set_tune(c, TUNE_N8[d[2]]); c->lworkmode = 3; c->k = d[4] + 1; c->fest = 1; c->tune[6] = 1; c->aux = d[6] * 2; }
 static const family F08Q[] = {
+    { "workspace sweep 12x12 (4 block/grid patterns + 4 generated patterns) x vals2 x tune{default,(3,8,8..),(8,4,16..)} x type4 x every multiple of 4 up to 16 KiB x align{0} x {LU, ILU with fill factor 1}", 7, { 8, 2, 3, 4, 4096, 1, 2 }, set08W12 },
     { "workspace sweep 8x8: BASE(8) NATURAL x vals2 x tune4 x type4 x lengths{68.. step 4 cycling residues, 1000 lengths} x align2 x {LU, ILU with fill factor 1}", 7, { 9, 2, 4, 4, 1000, 2, 2 }, set08W8 },
     { "workspace sweep: BASE(6) x vals2 x colperm2 x tune3 x type4 x {LU,ILU} x lengths{1..64, then step 4 up to 3072 cycling through the residues mod 4} x align{0,4}", 8, { 9, 2, 2, 3, 4, 2, NLEN_Q, 2 }, set08W },
     { "size query lwork=-1: BASE(6) x dev{0..8} x vals2 x tune3 x type4 x {LU,ILU} x Equil2 x Fact{DOFACT,SamePattern,SamePattern_SameRowPerm} x fill5", 9, { 9, 9, 2, 3, 4, 2, 2, 3, 5 }, set08Q },
     { "k-th growth request fails (library allocation, fill estimate 1): DEV_1(BASE(6)) x vals2 x colperm2 x tune3 x type4 x {LU,ILU} x k{1..14}", 8, { 9, 37, 2, 2, 3, 4, 2, 14 }, set08K },
+    { "k-th growth request fails, 8x8 NATURAL order (all four array kinds grow): DEV_1(BASE(8)) first 3 deviations x vals2 x tune4 x type4 x k{1..24} x {LU, ILU with fill factor 1}", 7, { 9, 2, 4, 4, 24, 3, 2 }, set08K8 },
 };
 static const family F08T[] = {
+    { "workspace sweep 12x12 (4 block/grid patterns + 12 generated patterns) x vals2 x tune{default,(3,8,8..),(8,4,16..)} x type4 x every multiple of 4 up to 24 KiB x align{0,4} x {LU, ILU with fill factor 1}", 7, { 16, 2, 3, 4, 6144, 2, 2 }, set08W12 },
     { "workspace sweep 8x8: BASE(8) NATURAL x vals2 x tune4 x type4 x lengths{68.. step 4 cycling residues, 1400 lengths} x align2 x {LU, ILU with fill factor 1}", 7, { 9, 2, 4, 4, 1400, 2, 2 }, set08W8 },
     { "workspace sweep: BASE(6) x vals3 x colperm4 x tune8 x type4 x {LU,ILU} x every byte length 1..3584 x align{0,4}", 8, { 9, 3, 4, 8, 4, 2, LMAX_T, 2 }, set08W },
     { "workspace sweep on DEV_1(BASE(6)) x tune3 x type4 x lengths{32..4096 step 32} x align2", 6, { 9, 37, 3, 4, 128, 2 }, set08Wd },
     { "size query lwork=-1: BASE(6) x dev{0..36} x vals3 x tune8 x type4 x {LU,ILU} x Equil2 x Fact3 x fill5", 9, { 9, 37, 3, 8, 4, 2, 2, 3, 5 }, set08Q },
     { "k-th growth request fails: DEV_1(BASE(6)) x vals3 x colperm4 x tune8 x type4 x {LU,ILU} x k{1..20}", 8, { 9, 37, 3, 4, 8, 4, 2, 20 }, set08K },
+    { "k-th growth request fails, 8x8 NATURAL order (all four array kinds grow): DEV_1(BASE(8)) first 16 deviations x vals2 x tune4 x type4 x k{1..24} x {LU, ILU with fill factor 1}", 7, { 9, 2, 4, 4, 24, 16, 2 }, set08K8 },
 };
 #define NF(F) ((int)(sizeof F / sizeof *F))
 static long sz_08(int tier) { return tier ? fam_total(F08T, NF(F08T)) : fam_total(F08Q, NF(F08Q)); }
@@ -277,21 +289,41 @@ static void set07Cap(const int *d, vcase *c)  /* incomplete LU, every initial ca
            int dv = q / 2; c->pat = (uint64_t)(9 + (q & 1)) | ((uint64_t)(dv ? ((dv - 1) * 29 + 7) % 144 + 1 : 0) << 8); }
     set_tune(c, TUNE_N8[d[1]]); c->fest = 1; c->tune[6] = 1; c->fillb = (int[]){ 0xA5, 0x00, 0xFF }[d[4] % 3];
 }
+static int l12_nrnd = 40;
+static void set07L12(const int *d, vcase *c)   /* library allocation with fill estimate 1 / 2 on orders 12 and 16: growth requests inside multi-column relaxed supernodes (xsnode_dfs, the copy kept for pruning) */
+{
+    int e[10] = { 0, 0, d[1], 0, 0, d[3], 0, d[4], 0, d[0] % 3 }; set07(e, c); c->aux = 0;
+    c->n = c->m = d[5] ? 16 : 12;
+    if (d[0] < 12) { c->gen = 1; c->pat = (uint64_t)(int[]){ 9, 10, 4, 7, 1, 2 }[d[0] / 2]; c->colperm = (d[0] & 1) ? 3 : 0; }
+    else { int q = d[0] - 12; c->gen = 2; c->pat = (uint64_t)(700 + q / 2); c->colperm = (q & 1) ? 3 : 0; }
+    set_tune(c, (int[]){ 13, 14, 10, 9, 0 }[d[2]]); c->fest = FEST[d[4]]; c->tune[6] = c->fest;
+}
+static void set07Z(const int *d, vcase *c)   /* complete LU, library allocation: nnz(A) stepped by explicit zeros inside the fill region, so the initial capacity fill*nnz(A) sweeps consecutive values */
+{
+    int e[10] = { 0, 0, 0, 0, 0, d[2], 0, d[3], 0, d[1] % 3 }; set07(e, c); c->aux = 0; c->vals = 2;
+    c->n = c->m = 16; c->gen = 3; int h = d[0] ? 10 : 8; c->pat = (uint64_t)h | ((uint64_t)d[1] << 8); c->colperm = 0;
+    if (d[1] > (h - 1) * (h - 2)) c->aux3 = 77;      /* more zeros than interior cells: skipped */
+    set_tune(c, (int[]){ 13, 14, 10 }[d[4]]); c->fest = FEST[d[3]]; c->tune[6] = c->fest;
+}
 static void set07R(const int *d, vcase *c)     /* tall matrices through xgstrf are covered by C02; here: row storage + equilibration through the driver */
 { int e[10] = { d[0], d[1], 0, d[2], d[3], d[4], 0, d[5], d[6], 0 }; set07(e, c); c->stor = 1; c->equil = 1; c->vals = 4; }
 static const family F07Q[] = {
+    { "capacity sweep for complete LU (library allocation): 16x16 arrow block of order {8,10} + tridiagonal block, 0..72 explicit zeros in the fill region x type4 x fill estimate{1,2} x tune{(2,4,1..),(3,8,2..),(2,4,4..)}", 5, { 2, 73, 4, 2, 3 }, set07Z },
+    { "library allocation, orders 12 and 16: (6 structured + 40 generated patterns) x {NATURAL,COLAMD} x vals2 x tune{(2,4,1..),(3,8,2..),(2,4,4..),(3,8,8..),default} x type4 x fill estimate{1,2}", 6, { 12 + 80, 2, 5, 4, 2, 2 }, set07L12 },
     { "DEV_1(BASE(8)) first 6 deviations, NATURAL order x vals2 x tune{1-col supernodes,(2,1,2..),(2,4,4..),(3,1,4..)} x type4 x scenario x fill estimate 1 x {LU, ILU with fill factor 1}", 7, { 9, 2, 4, 4, NSCEN, 6, 2 }, set07N8 },
     { "DEV_1(BASE(6)), first 10 deviations x vals2 x colperm2 x tune3 x type4 x {LU,ILU} x scenario(5 fill estimates + 15 workspace lengths x align2 x prefill3) x ws-fill-estimate{1,2,3}", 9, { 9, 10, 2, 2, 3, 4, 2, NSCEN, 3 }, set07q },
     { "incomplete LU, every initial capacity nnz(A)..4*nnz(A) of the growable arrays (fractional fill factor): {DEV_1(BASE(8)) first 3 deviations NATURAL, 12 generated 12x12 patterns x {NATURAL,COLAMD}, 12x12 {arrow block + tridiagonal block, two arrow blocks} x dev{0..3}} x tune4 x type4 x {NODROP, BASIC 1e-4, BASIC .5} x capacity offset 0..159", 5, { 9 * 3 + 24 + 8, 4, 4, 3, 160 }, set07Cap },
 };
 static const family F07T[] = {
+    { "capacity sweep for complete LU (library allocation): 16x16 arrow block of order {8,10} + tridiagonal block, 0..72 explicit zeros in the fill region x type4 x fill estimate{1,2,3} x tune{(2,4,1..),(3,8,2..),(2,4,4..)}", 5, { 2, 73, 4, 3, 3 }, set07Z },
+    { "library allocation, orders 12 and 16: (6 structured + 400 generated patterns) x {NATURAL,COLAMD} x vals2 x tune5 x type4 x fill estimate{1,2,3}", 6, { 12 + 800, 2, 5, 4, 3, 2 }, set07L12 },
     { "DEV_1(BASE(8)), NATURAL order x vals2 x tune4 x type4 x scenario x fill estimate 1 x {LU, ILU with fill factor 1}", 7, { 9, 2, 4, 4, NSCEN, 65, 2 }, set07N8 },
     { "DEV_1(BASE(6)) x vals3 x colperm4 x tune8 x type4 x {LU,ILU} x scenario x ws-fill-estimate5 x heap-fill3", 10, { 9, 37, 3, 4, 8, 4, 2, NSCEN, 5, 3 }, set07 },
     { "row storage + equilibration: DEV_1(BASE(6)) x colperm4 x tune8 x type4 x scenario x fill5", 7, { 9, 37, 4, 8, 4, NSCEN, 5 }, set07R },
     { "incomplete LU, every initial capacity nnz(A)..4*nnz(A) of the growable arrays (fractional fill factor): {DEV_1(BASE(8)) first 24 deviations NATURAL, 60 generated 12x12 patterns x {NATURAL,COLAMD}, 12x12 {arrow block + tridiagonal block, two arrow blocks} x dev{0..19}} x tune4 x type4 x {NODROP, BASIC 1e-4, BASIC .5} x capacity offset 0..239", 5, { 9 * 24 + 120 + 40, 4, 4, 3, 240 }, set07Cap },
 };
 static long sz_07(int tier) { return tier ? fam_total(F07T, NF(F07T)) : fam_total(F07Q, NF(F07Q)); }
-static void dec_07(int tier, long idx, vcase *c) { cap_ndev = tier ? 24 : 3; cap_nrnd = tier ? 120 : 24; if (tier) fam_decode(F07T, NF(F07T), idx, c); else fam_decode(F07Q, NF(F07Q), idx, c); }
+static void dec_07(int tier, long idx, vcase *c) { l12_nrnd = tier ? 400 : 40; cap_ndev = tier ? 24 : 3; cap_nrnd = tier ? 120 : 24; if (tier) fam_decode(F07T, NF(F07T), idx, c); else fam_decode(F07Q, NF(F07Q), idx, c); }
 static void desc_07(int tier, char *b, size_t cap) { if (tier) fam_describe(F07T, NF(F07T), b, cap); else fam_describe(F07Q, NF(F07Q), b, cap); }
 
 static long find_lmin(const vcase *c, vres *r)
@@ -310,6 +342,7 @@ static void run_C07(const vcase *c, vres *r)
     /* reference: library allocation, fill estimate 30, fresh blocks filled 0xA5 */
     /* aux=2 (ILU whose fill factor doubles as storage guess): the fill factor is a numerical option there, so the reference keeps it */
     if (c->aux == 2 && c->k < 5) { r->status = 2; return; }
+    if (c->aux3 == 77) { r->status = 2; return; }
     if (c->aux == 3) {
         vcase ref = *c; ref.aux3 = 1; vf_fill_byte = 0xA5; outcome base, O; char why[220];
         run_once(&ref, NULL, 0, &base, NULL, r);
